@@ -25,6 +25,10 @@ CHECKS = {
    text="As C02 with the whole torn-variant set (prefix lengths, zero-filled, stale tail) and crash / recover / continue / crash sequences: seeded images of each run are continued by a further simulated run whose own trace is enumerated again (depth 2, thorough 3). Per image: the opening process neither dies nor panics, open succeeds whenever a snapshot had been completed, recovered content is exactly one prefix state, the recovered writer accepts a batch that survives close and reopen.",
    note="Trusted: torn-write model = prefix / zero-fill / stale tail of the in-flight file, other files intact; the free-running writer probe in the child is a sample, the deterministic continuation is the forked simulated run; a recovered index is reopened with the segment format it was written with.",
    technique="deterministic simulation + torn-write crash enumeration with fork-from-image continuation (depth >= 2), prefix-consistency oracle"),
+ "C08": dict(level="exploration", ref="3/C08",
+   text="Metamorphic simulation property: the layout is the product of a schedule. The index a seeded simulated run ends with (any segmentation, pending deletions, merged or not, in memory or on disk, ice v1/v2, also through Backup+OpenReader and reopened after Close) must answer 10-19 generated queries of every public query type exactly like canonical builds of the same documents (one batch, permuted, one document per batch with and without merging, other segment format, optimisations off, OfflineWriter, partitioned + MultiSearch): match sets, stored fields, order under a total field sort, aggregations; scores between builds without merged segments or pending deletions (up to floating-point summation order). No reference semantics is needed. Sampling of schedules, corpora and queries.",
+   note="Trusted: the abstract index supplies the live documents; scores are compared with a relative tolerance of 1e-12 (summation order depends on document numbering); score differences of the merged build are the listed known finding and only that.",
+   technique="deterministic simulation producing layouts + differential (metamorphic) comparison of search answers across build recipes"),
  "C11": dict(level="exploration", ref="3/C11",
    text="Seeded search over simulated runs on the file-system directory with retention N in {1,2,3}, readers held from the writer and from the live directory, second-writer attempts; after every window with a directory mutation the real directory is scanned and every snapshot parsed: retention, no needed segment file missing or successfully removed, held readers stable, every loaded item and every descriptor released exactly once by the end, immediate reopen after Close, second writer refused. Invariants are evaluated at every quiescent point of every explored run; runs are sampled.",
    note="Trusted: directory state is observed at window boundaries (one directory operation per window), not in the middle of an operation; handle accounting relies on the Load closer wrapper and the os hook.",
